@@ -26,6 +26,63 @@ PID = "C07"
 TOL = Fraction(1, 10 ** 8)
 
 
+LOGLIN = zoo.ZModel(
+    "loglin", ("y", "z"), ("ey", "ez"),
+    ("log(y) = rho*log(y[-1]) + (1-rho)*log(2) + ey",
+     "z = 0.5*z[-1] + 0.3*log(y) + ez"),
+    dict(rho=Fraction(4, 5)), linear=False, logvars=("y",), tags=("backward", "logvar"), forward=0)
+
+
+def _zm(name):
+    return LOGLIN if name == "loglin" else zoo.by_name(name)
+
+
+def _build(ir, zm):
+    if zm.name == "loglin":
+        import contextlib, io
+        with contextlib.redirect_stdout(io.StringIO()):
+            return fo.build_model(ir, zm, y=2.0, z=0.4)
+    return fo.build_model(ir, zm)
+
+
+def _ct(zm, name, cell):
+    """term of a cell; log-variables are compared in logs (LOG(EXP(affine)) normalises to the affine term)"""
+    t = _cell_term(cell)
+    if t is None or name not in zm.logvars:
+        return t
+    return S.mk_log(t)
+
+
+def _domain(zm, syms):
+    out = []
+    for n, s in syms.items():
+        if n.split("__")[0] in zm.logvars:
+            out.append(z3.And(s.t >= Fraction(1, 4), s.t <= 2))        # log-variables: positive data
+        else:
+            out.append(z3.And(s.t >= -1, s.t <= 1))
+    return out
+
+
+def _log_bounds(terms):
+    """LOG is uninterpreted: give every LOG(symbol) the range implied by the symbol's domain [1/4, 2] (ln in [-1.387, 0.694]);
+    without it the solver makes LOG(y) astronomically large and float noise in the coefficients (1e-16) exceeds the tolerance"""
+    seen, out = set(), []
+
+    def walk(t):
+        if t.get_id() in seen:
+            return
+        seen.add(t.get_id())
+        if z3.is_app(t):
+            if t.decl().eq(S.LOG) and z3.is_const(t.arg(0)) and t.arg(0).decl().kind() == z3.Z3_OP_UNINTERPRETED:
+                out.append(z3.And(t >= Fraction(-7, 5), t <= Fraction(7, 10)))
+            for ch in t.children():
+                walk(ch)
+    for t in terms:
+        if t is not None:
+            walk(t)
+    return out
+
+
 def _base_db(ir, zm, m, nsim, values=None, zero_later_unant=False):
     start = ir.qq(2020, 1)
     span = start >> (start + nsim - 1)
@@ -175,7 +232,7 @@ def check_plan(run, ir, zm, m, nsim, spec, idx):
     claims = []
     # (1) exogenized cells equal their input symbols
     for (v, k) in spec["targets"]:
-        claims.append((f"exogenized:{v}@{k}", _cell_term(out[row[v], b0 + k]), _cell_term(inp[row[v], b0 + k])))
+        claims.append((f"exogenized:{v}@{k}", _ct(zm, v, out[row[v], b0 + k]), _ct(zm, v, inp[row[v], b0 + k])))
     # (2) every shock cell that is not endogenized is unchanged
     endo = {(_instr_row(spec, e), k) for e, k in spec["instruments"]}
     shock_rows = list(zm.tshocks) + ["ant_" + s for s in zm.tshocks] + list(zm.mshocks)
@@ -202,12 +259,12 @@ def check_plan(run, ir, zm, m, nsim, spec, idx):
     row2 = {n: i for i, n in enumerate(cap2["names"])}
     for v in list(zm.tvars) + list(zm.mvars):
         for k in range(nsim):
-            a, b = _cell_term(out[row[v], b0 + k]), _cell_term(out2[row2[v], cap2["base_columns"][0] + k])
+            a, b = _ct(zm, v, out[row[v], b0 + k]), _ct(zm, v, out2[row2[v], cap2["base_columns"][0] + k])
             if a is None or b is None:
                 continue
             claims.append((f"resimulated:{v}@{k}", a, b))
     syms.update(cap2["syms"])
-    assume = _box(syms) + [path.condition(), path2.condition()]
+    assume = _domain(zm, syms) + [path.condition(), path2.condition()] + _log_bounds([t for _, a, b in claims for t in (a, b)])
     r0, _ = run.check_sat(assume, timeout_ms=30000)
     if r0 != "sat":
         run.unknown(key, f"reachability witness {r0}")
@@ -263,7 +320,7 @@ def check_swap(run, ir, zm, m, nsim, spec, idx):
         claims.append((f"recovered_shock:{n}@{k}", _cell_term(out[row[n], b0 + k]), z3.Real(f"{n}__{lab(k)}")))
     for v in list(zm.tvars) + list(zm.mvars):
         for k in range(nsim):
-            a, b = _cell_term(out[row[v], b0 + k]), _cell_term(out0[row0[v], b00 + k])
+            a, b = _ct(zm, v, out[row[v], b0 + k]), _ct(zm, v, out0[row0[v], b00 + k])
             if a is None or b is None:
                 continue
             claims.append((f"recovered_path:{v}@{k}", a, b))
@@ -271,7 +328,7 @@ def check_swap(run, ir, zm, m, nsim, spec, idx):
     for (e, k) in spec["instruments"]:
         nm = f"prior_{_instr_row(spec, e)}__{lab(k)}"
         syms[nm] = S.sym(nm)
-    assume = _box(syms) + [path0.condition(), path.condition()]
+    assume = _domain(zm, syms) + [path0.condition(), path.condition()] + _log_bounds([t for _, a, b in claims for t in (a, b)])
     r0, _ = run.check_sat(assume, timeout_ms=30000)
     if r0 != "sat":
         run.unknown(key, f"reachability witness {r0}")
@@ -308,21 +365,21 @@ def main(run):
         "plans.simulation_plans.SimulationPlan.{exogenize_*,endogenize_*,get_registers_as_bool_arrays,check_consistency}",
         "reached through Simultaneous.simulate(plan=..., method='first_order')",
     ]
-    run.bounds["structures"] = ("zoo models nk3, ar2m, pc_const; span 4 periods; exactly identified plans with <=2 (variable,date) targets and <=2 "
+    run.bounds["structures"] = ("zoo models nk3, ar2m, pc_const and loglin (a log-variable; first-order approximation of a non-linear model, compared in logs); span 4 periods; exactly identified plans with <=2 (variable,date) targets and <=2 "
                                 "(shock,date) instruments inside the first 3 periods, unanticipated (instrument date <= target date) and anticipated "
                                 "(instruments at the start date, or at later dates with no unanticipated transition shock after the start: one frame); "
                                 "singular impact matrices skipped and counted; tier="
                                 f"{run.tier} enumerates checks/C07._plans exhaustively")
-    run.bounds["values"] = "every initial condition, shock (unanticipated, anticipated, measurement), target value and prior mean in [-1,1]; tolerance 1e-8"
+    run.bounds["values"] = "every initial condition, shock (unanticipated, anticipated, measurement), target value and prior mean in [-1,1] (log-variables in [1/4,2]); tolerance 1e-8"
     run.stubs += ["kalmans._INVERSE_FUNCTION['regular'] -> numpy.linalg.inv on the (concrete) innovation covariance: gains depend only on model and plan"]
     run.assumptions += ["cells are mathematical reals; float-born coefficients read exactly", "std rows stay concrete",
                         "equation consistency is decided as 'the plan path equals an ordinary simulation of the returned shocks' (C01 decides ordinary simulations)"]
     run.outside += ["plans whose simulation is split into more than one frame (anticipated shocks endogenized after the start date together with later unanticipated shocks)",
                     "method='stacked_time' plans (see C06)", "singular or over/under-identified plans", "time-varying stds"]
-    models = [zoo.by_name(n) for n in (("nk3", "ar2m", "pc_const") if run.tier == "thorough" else ("nk3", "ar2m"))]
+    models = [_zm(n) for n in (("nk3", "ar2m", "pc_const", "loglin") if run.tier == "thorough" else ("nk3", "ar2m", "loglin"))]
     nsim = 4
     for zm in models:
-        m = fo.build_model(ir, zm)
+        m = _build(ir, zm)
         for idx, spec in enumerate(_plans(zm, run.tier)):
             for fn in (check_plan, check_swap):
                 try:
@@ -336,8 +393,8 @@ def main(run):
 
 def replay(case):
     ir = load_irispie()
-    zm = zoo.by_name(case["model"])
-    m = fo.build_model(ir, zm)
+    zm = _zm(case["model"])
+    m = _build(ir, zm)
     nsim, spec = case["nsim"], case["spec"]
     spec = dict(mode=spec["mode"], targets=[tuple(t) for t in spec["targets"]], instruments=[tuple(t) for t in spec["instruments"]])
     vals = {k: float(Fraction(a, b)) for k, (a, b) in case.get("values", {}).items()}
